@@ -7,6 +7,6 @@ CONSTANTS
   BuildLen = 1
   Fixed = TRUE
 VIEW View
-INVARIANTS TypeOK EdgesSorted FindIsDef BinsAreCounts VarianceRange
+INVARIANTS TypeOK EdgesSorted FindIsDef BinsAreCounts VarianceRange IterationOK
 PROPERTIES CombineLaws PanicChangesNothing FailedAddChangesNothing
 CHECK_DEADLOCK FALSE
